@@ -197,6 +197,7 @@ type c20WfIn struct {
 	From   string `json:"from"`
 	Kind   string `json:"kind"` // input | dep | indirect
 	Mapped bool   `json:"mapped,omitempty"`
+	Fid    int    `json:"fid,omitempty"` // > 0: the input is MapFields("k", "k<Fid>") (map-typed nodes; c20_dup.go)
 }
 
 // ---- generic registries ----
